@@ -63,8 +63,8 @@ Theorem dealer_wf_sync_cancel : forall lookup lk d caller req mode reason ea,
 Proof. exact sync_cancel_wf. Qed.
 Print Assumptions dealer_wf_sync_cancel.
 
-Theorem dealer_wf_yield : forall lookup d callee req opts args kw,
-    dealer_wf lookup d -> dealer_wf lookup (fst (sync_yield d callee req opts args kw)).
+Theorem dealer_wf_yield : forall lookup lk d callee req opts args kw,
+    dealer_wf lookup d -> dealer_wf lookup (fst (sync_yield lk d callee req opts args kw)).
 Proof. exact sync_yield_wf. Qed.
 Print Assumptions dealer_wf_yield.
 
@@ -203,6 +203,21 @@ Theorem chunk_spec : forall cfg lookup now d caller req opts proc args kw oracle
 Proof. exact chunk_spec_proof. Qed.
 Print Assumptions chunk_spec.
 
+(** payload passthru: the ppt options are copied into the details iff the CALL
+    uses passthru mode, and then both peers announced the feature *)
+Theorem invocation_ppt : forall cfg lookup now d caller req opts proc args kw oracle d' callee' o,
+    call cfg lookup now d caller req opts proc args kw oracle = CallInvoked d' callee' o ->
+    cget (d_bycall d) (s_id caller, req) = None ->
+    exists r callee_id callee,
+      match_procedure d proc oracle = Some r /\ lookup callee_id = Some callee /\
+      let det := call_details cfg caller callee r opts proc in
+      o = [(callee_id, RInvocation (idgen_next (s_invgen callee)) (reg_id r) det args kw)] /\
+      (forall k, In k ppt_keys -> dget det k = if ppt_active opts then ppt_val opts k else None) /\
+      (ppt_active opts = true ->
+       sess_feature caller "caller" f_ppt = true /\ sess_feature callee "callee" f_ppt = true).
+Proof. exact invocation_ppt_proof. Qed.
+Print Assumptions invocation_ppt.
+
 Example invocation_ex :
     (exists o, the_call = CallInvoked d3 (set_invgen s11 1) o /\
                o = [(11, RInvocation 1 19 [("progress", VBool false); ("receive_progress", VBool true);
@@ -217,17 +232,30 @@ Proof.
   eexists; eexists. vm_compute. repeat split; reflexivity.
 Qed.
 
-(** ** Answer routing: only to the session that made that call, payload unchanged *)
-Theorem answer_routing_yield : forall lookup d callee req opts args kw,
+(** ** Answer routing: only to the session that made that call, payload unchanged.
+    A YIELD of the invocation's owner sends [yield_out]: the RESULT to the
+    caller (details: [progress] for a progressive one, plus the passthru
+    options when passthru mode is used and both peers announced it); when a
+    passthru YIELD cannot be delivered the caller gets, for a final YIELD,
+    ERROR(CALL) with its own request id instead, and the yielding callee an
+    ABORT (it lacks the feature) or an ERROR(YIELD) (the caller lacks it).
+    At most one message is a reply, it goes to the caller of that call; every
+    other message goes back to the yielding callee. *)
+Theorem answer_routing_yield : forall lookup lk d callee req opts args kw,
     dealer_wf lookup d ->
     match cget (d_invs d) (callee, req) with
     | Some inv =>
         let cid := inv_call inv in
+        let o := snd (sync_yield lk d callee req opts args kw) in
         pending d cid (callee, req) inv (fst cid) /\
-        snd (sync_yield d callee req opts args kw) =
-        [(fst cid, RResult (snd cid) (if opt_bool opts "progress" then [("progress", VBool true)] else []) args kw)]
+        o = yield_out lk callee req opts args kw cid (fst cid) /\
+        (ppt_active opts = false ->
+         o = [(fst cid, RResult (snd cid) (if opt_bool opts "progress" then [("progress", VBool true)] else []) args kw)]) /\
+        (forall m, In m o -> reply_of m = Some (cid, negb (opt_bool opts "progress")) \/
+                             (fst m = callee /\ reply_of m = None)) /\
+        (forall o1 m o2, o = o1 ++ m :: o2 -> reply_of m <> None -> forall m', In m' (o1 ++ o2) -> reply_of m' = None)
     | None =>     (* not the owner of such an invocation: nothing changes, nothing reaches a caller *)
-        sync_yield d callee req opts args kw =
+        sync_yield lk d callee req opts args kw =
         (d, if opt_bool opts "progress" then [(callee, RInterrupt req [("mode", vstr "killnowait")])] else [])
     end.
 Proof. exact answer_routing_yield_proof. Qed.
@@ -246,8 +274,11 @@ Proof. exact answer_routing_error_proof. Qed.
 Print Assumptions answer_routing_error.
 
 Example answer_routing_ex :
-    snd (sync_yield d3 11 1 [] [vnat 9] [("r", vnat 8)]) = [(10, RResult 7 [] [vnat 9] [("r", vnat 8)])] /\
-    sync_yield d3 12 1 [] [vnat 9] [] = (d3, []) /\                    (* wrong yielder *)
+    snd (sync_yield (lk 1 0) d3 11 1 [] [vnat 9] [("r", vnat 8)]) = [(10, RResult 7 [] [vnat 9] [("r", vnat 8)])] /\
+    sync_yield (lk 1 0) d3 12 1 [] [vnat 9] [] = (d3, []) /\                    (* wrong yielder *)
+    (* passthru mode: the options travel in the RESULT details *)
+    snd (sync_yield (lk 1 0) d3 11 1 ppt_opts [vnat 1] []) =
+      [(10, RResult 7 [("ppt_scheme", vstr "mqtt"); ("ppt_serializer", vstr "cbor")] [vnat 1] [])] /\
     snd (sync_error d3 11 1 [("x", vnat 1)] "com.err" [vnat 9] []) = [(10, RError c_CALL 7 [("x", vnat 1)] "com.err" [vnat 9] [])] /\
     sync_error d3 12 1 [] "com.err" [] [] = (d3, []).
 Proof. vm_compute. repeat split; reflexivity. Qed.
